@@ -416,6 +416,38 @@ pub fn e2_spec(id: &str, tier: &str) -> Option<crate::e2::E2Spec> {
                     }
                 }
             }
+            // two different functions on the same (fresh) struct instance: their first memos are
+            // inserted into the instance's lazily allocated memo table concurrently
+            {
+                let p = progs::struct_set().remove(0);
+                let a = Op::QOnTs(0, 0, 0);
+                let b = Op::QOnTs(0, 0, 1);
+                scens.push(Scen {
+                    name: "two-fns-on-one-tracked-struct".into(),
+                    prog: p,
+                    setup: vec![Op::Q(0)],
+                    threads: vec![vec![a.clone(), b.clone()], vec![b, a]],
+                    phase2_writes: vec![],
+                    phase2: false,
+                    bound: if quick { 2 } else { 3 },
+                    oracle: if once { Oracle::Once } else { Oracle::Readers },
+                    writer: vec![],
+                });
+                let p = progs::p3(1, 0, 1);
+                let a = Op::QK(0, Kind::Ev);
+                let b = Op::QK(0, Kind::NoEq);
+                scens.push(Scen {
+                    name: "two-fns-on-one-input".into(),
+                    prog: p,
+                    setup: vec![],
+                    threads: vec![vec![a.clone(), b.clone()], vec![b, a]],
+                    phase2_writes: vec![],
+                    phase2: false,
+                    bound: if quick { 2 } else { 3 },
+                    oracle: if once { Oracle::Once } else { Oracle::Readers },
+                    writer: vec![],
+                });
+            }
             Some(E2Spec {
                 id: if once { "C17" } else { "C16" },
                 scens,
